@@ -47,7 +47,12 @@ def wellformed(x):
     for k, e in exp.items():
         v = getattr(x, k)
         try:
-            if isinstance(v, complex) or Fraction(v) != e:
+            if f.n_word <= 52:
+                ok = not isinstance(v, complex) and Fraction(v) == e
+            else:
+                # beyond 52 bits the limit is not an exact double any more: demand the correctly rounded one
+                ok = not isinstance(v, complex) and float(v) == float(e)
+            if not ok:
                 bad.append('%s = %r, expected %s' % (k, v, e))
         except Exception:
             bad.append('%s = %r unreadable' % (k, v))
